@@ -308,6 +308,9 @@ func (m *Machine) choose(n int, guards []*Term) int {
 		d = m.trail[m.tpos]
 		m.tpos++
 	} else {
+		if debugChoose && n > 4 {
+			fmt.Fprintf(os.Stderr, "choose n=%d at depth %d; guards[0]=%s\n", n, m.depth, trunc(guards[0].SMT(), 300))
+		}
 		var feas []int
 		for i := 0; i < n; i++ {
 			if guards == nil || guards[i] == nil {
@@ -771,3 +774,5 @@ var mainPath = "anonymongo/src"
 
 var debugSMT = os.Getenv("GOSYM_DEBUG_SMT") != ""
 var debugOut = os.Stderr
+
+var debugChoose = os.Getenv("GOSYM_DEBUG_CHOOSE") != ""
